@@ -590,6 +590,11 @@ def check(crate):
             continue
         present.add(b.name)
         if b.name not in CONTRACT and b.name not in ("size_hint", "count", "new"):
+            if b.trait in ("Iterator", "DoubleEndedIterator", "ExactSizeIterator"):
+                # an override this table has no contract for (fold, rfold, try_fold, advance_by, ...): it replaces the
+                # default built on next()/next_back(), so slice-equivalence now also depends on it
+                res.append((b, "%s|ITER" % b.key, "undecided",
+                            "%s::%s is overridden; this rule has no contract for it: not decided" % (b.trait, b.name)))
             continue
         w = _summary(b)
         key = "%s|ITER" % b.key
